@@ -57,6 +57,22 @@ IntersectionsOKh(H, R, v, o, d, ints, mul) ==
 MinRepIn(R, v, o, d) == CHOOSE k \in R : \A j \in R : j = k \/ FLt(EdgeT0(v, k, o, d), EdgeT0(v, j, o, d))
 MaxRepIn(R, v, o, d) == CHOOSE k \in R : \A j \in R : j = k \/ FLt(EdgeT0(v, j, o, d), EdgeT0(v, k, o, d))
 
+\* ---- nearly parallel lines (slopes of 2^-20 against edges millions of units long): cross-multiplying two parameters
+\* would leave TLC's 32-bit integers, so equality / order of the signed fractions uses the continued-fraction comparison
+SgnR(x) == Sgn(x[1]) * Sgn(x[2])
+CmpS(x, y) == LET sx == SgnR(x) sy == SgnR(y) IN
+    IF sx < sy THEN -1 ELSE IF sx > sy THEN 1 ELSE IF sx = 0 THEN 0
+    ELSE LET c == RCmp(AbsC(x[1]), AbsC(x[2]), AbsC(y[1]), AbsC(y[2])) IN IF sx > 0 THEN c ELSE -c
+RepsBig(H, v, o, d) == {k \in H : \A j \in H : CmpS(EdgeT0(v, j, o, d), EdgeT0(v, k, o, d)) = 0 => k <= j}
+\* reported list (parameter quantum qt per |d|): one entry per distinct exact crossing, on a hit edge, near the exact
+\* parameter, strictly ascending
+IntersectionsBigOK(v, o, d, ints, qt) ==
+    LET H == HitEdges(v, o, d) R == RepsBig(H, v, o, d) IN
+    /\ Len(ints) = Cardinality(R)
+    /\ \A j \in 1..Len(ints) : LET k == ints[j][2] + 1 x == EdgeT0(v, k, o, d) IN
+          k \in H /\ AbsC(ints[j][1] * x[2] - qt * x[1]) <= 2 * AbsC(x[2])
+    /\ \A j \in 1..(Len(ints) - 1) : CmpS(EdgeT0(v, ints[j][2] + 1, o, d), EdgeT0(v, ints[j + 1][2] + 1, o, d)) < 0
+
 MinRep(v, o, d) == CHOOSE k \in Reps(v, o, d) : \A j \in Reps(v, o, d) : j = k \/ FLt(EdgeT0(v, k, o, d), EdgeT0(v, j, o, d))
 MaxRep(v, o, d) == CHOOSE k \in Reps(v, o, d) : \A j \in Reps(v, o, d) : j = k \/ FLt(EdgeT0(v, j, o, d), EdgeT0(v, k, o, d))
 
